@@ -138,7 +138,7 @@ func wGen(t *rapid.T, o wOpts) mgen.Model {
 
 	if shape == 3 && len(refs) >= 5 {
 		// a tree over the first K methods; every node also calls a leaf so that it is expandable
-		k := rapid.IntRange(5, 9).Draw(t, "treeNodes")
+		k := rapid.SampledFrom([]int{7, 8, 5, 6, 9, 7, 8}).Draw(t, "treeNodes") // the budget is 7
 		if k > len(refs) {
 			k = len(refs)
 		}
